@@ -13,7 +13,7 @@ def connected_graph(draw, min_n=1, max_n=7):
     """{"n", "edges"}: a connected simple graph: a family member or a random spanning tree (biased towards
     path-like trees so that diameters >= 3 occur) plus extra edges, in a random labelling"""
     kind = draw(st.sampled_from(["tree+", "tree+", "tree+", "path", "cycle", "star", "complete", "bipartite"]))
-    n = draw(st.integers(min_n, max_n))
+    n = draw(st.one_of(st.integers(min_n, max_n), st.sampled_from(list(range(min_n, max_n + 1)))))
     edges = set()
     if kind == "path" or n <= 2:
         edges = {(i, i + 1) for i in range(n - 1)}
@@ -46,12 +46,19 @@ def relabel(g, perm):
 
 
 def adjacency(g, fmt="dense", symmetric=False, dtype=int):
+    """symmetric: False = upper triangle only, True = both triangles, "permuted" = what relabelling the rows and columns of an
+    upper-triangular adjacency matrix produces: every edge stored once, in either triangle (here: below the diagonal when
+    the sum of its endpoints is odd)"""
     n = g["n"]
     A = np.zeros((n, n), dtype=dtype)
     for i, j in g["edges"]:
-        A[min(i, j), max(i, j)] = 1
-        if symmetric:
-            A[max(i, j), min(i, j)] = 1
+        lo, hi = min(i, j), max(i, j)
+        if symmetric == "permuted" and (lo + hi) % 2 == 1:
+            A[hi, lo] = 1
+        else:
+            A[lo, hi] = 1
+        if symmetric is True:
+            A[hi, lo] = 1
     if fmt == "nested_list":
         return A.tolist()
     if fmt == "dense":
